@@ -108,6 +108,9 @@ CHECKS = {
  "C19": ("exploration", "model-based run-time monitor of consistent reads after every write + scheduler-driven reader/writer interleavings with begun/acknowledged stamps",
          "held on every history and schedule of the run: read_relation_consistent equals the set model at quiescent points; under concurrency every read succeeds, contains all writes acknowledged before it began and nothing unwritten or deleted-before",
          "trusted: set model; seeded random schedules over the insert/delete hook points", "3/C19"),
+ "C20": ("exploration", "history checker over scheduler-driven interleavings: every read must be a whole-batch prefix state inside its [acknowledged-at-call, begun-at-return] window; writers read their own writes",
+         "held on every read of every explored schedule of the run: answers consist of whole batches, equal the writer's state after j operations with acknowledged-at-call <= j <= begun-at-return, and own reads equal the own state",
+         "trusted: boundary stamps taken by the reading thread; one writer per relation; seeded random schedules", "3/C20"),
 }
 NOT_YET = "monitor not built yet in this round (design in DESIGN.md section 3); not claimed until a check exists"
 
